@@ -184,6 +184,18 @@ func (g *GW) BrokerClose() {
 
 func (g *GW) Shutdown() { g.Cancel(); g.S.Run() }
 
+// ClientUnreachable: from now on every send to the client fails at once (reads from it still work).
+func (g *GW) ClientUnreachable() {
+	g.snGW.WriteErr = errUnreachable{}
+	g.S.Run()
+}
+
+type errUnreachable struct{}
+
+func (errUnreachable) Error() string   { return "vnet: network is unreachable" }
+func (errUnreachable) Timeout() bool   { return false }
+func (errUnreachable) Temporary() bool { return false }
+
 // StallBroker: the broker stops (or resumes) reading; with the buffers full the gateway's writes to it block.
 func (g *GW) StallBroker(on bool) {
 	if g.mqGW != nil {
@@ -280,6 +292,7 @@ const (
 	EvTimer       = "next-timer|T:next"
 	EvStall       = "broker-stops-reading|X:stall"
 	EvUnstall     = "broker-reads-again|X:unstall"
+	EvUnreachable = "client-becomes-unreachable|X:snfail"
 )
 
 func EvAdvance(d time.Duration) string { return fmt.Sprintf("advance %v|T:%d", d, int64(d)) }
@@ -330,6 +343,8 @@ func (g *GW) applyOne(body string) error {
 		g.StallBroker(true)
 	case body == "X:unstall":
 		g.StallBroker(false)
+	case body == "X:snfail":
+		g.ClientUnreachable()
 	case body == "T:next":
 		g.S.FireNext()
 	case strings.HasPrefix(body, "T:"):
